@@ -98,6 +98,9 @@ def run(R):
             elif r.exit != 0:
                 R.oracle_fail("Prereq text missing under -f: expected a warning and the patch applied", data)
     R.dist["C17 cases"] = dist
+    import ties
+    sel = [j for j in jobs if j.get("uid", 0) in (0, 65534)][:400 if quick else 5000]
+    ties.t8(R, "T8-driver", [dict(tree=j["tree"], argv=j["argv"], uid=j.get("uid", 0)) for j in sel])
 
 
 RULE = ("a fixed three-line file under a sample of 9-bit permission patterns x {-b, --read-only=warn/ignore/fail, -o, --no-backup-if-mismatch} x {exact, offset "
